@@ -305,6 +305,24 @@ func trueAlternativesOfReturn(ret *ssa.Return) [][]ssa.Value {
 	return alts
 }
 
+// factsAt returns the conditions known true (or, as negFact, false) whenever control
+// is in block b: the dominating branch edges, expanded through &&/|| φ-values.
+func factsAt(b *ssa.BasicBlock) []ssa.Value {
+	var dom []ssa.Value
+	for d := b; d != nil && d.Idom() != nil; d = d.Idom() {
+		idom := d.Idom()
+		if ifi, ok := idom.Instrs[len(idom.Instrs)-1].(*ssa.If); ok {
+			if idom.Succs[0].Dominates(b) && len(idom.Succs[0].Preds) == 1 {
+				dom = append(dom, ifi.Cond)
+			}
+			if idom.Succs[1].Dominates(b) && len(idom.Succs[1].Preds) == 1 {
+				dom = append(dom, negFact{ifi.Cond})
+			}
+		}
+	}
+	return expandFacts(dom)
+}
+
 // expandFacts: a condition materialised as `a && b` is a phi [false, …, X]; when it is
 // known true, X is true and so is everything that had to hold to evaluate X.
 func expandFacts(facts []ssa.Value) []ssa.Value {
